@@ -3,6 +3,8 @@ CONSTANTS MaxRuns = 2 MaxTouch = 2
   Scens <- ScenExpC
   Settings <- SettingsDefault
   CreatedSetsChanged = TRUE
+  Reuses = {FALSE, TRUE}
+  AutoReload = TRUE
   KeepHistory = TRUE
 INVARIANT Emitted
 CHECK_DEADLOCK FALSE
